@@ -514,9 +514,16 @@ class Execution:
                 if name == "inputs":
                     ins = [l for l in out.decode("latin-1").split("\n") if l]
                     extra = {"ins": ins, "sorted": ins == sorted(ins)}
+                if name == "multi-inputs":
+                    extra = {"pairs": [l.replace("\t", ">") for l in out.decode("latin-1").split("\n") if l]}
+                if name == "rules":
+                    extra = {"rules": [l for l in out.decode("latin-1").split("\n") if l]}
+                if name == "targets-rule":
+                    ls = [l for l in out.decode("latin-1").split("\n") if l]
+                    extra = {"rule": args[0], "routs": ls, "sorted": ls == sorted(ls)}
                 if name == "targets-all":
                     extra = {"tall": [l for l in out.decode("latin-1").split("\n") if l]}
-                self.events.append({"e": "Tool", "tool": name, "targets": args if name in ("commands", "commands1", "inputs") else [], "rc": rc,
+                self.events.append({"e": "Tool", "tool": name, "targets": args if name in ("commands", "commands1", "inputs", "multi-inputs") else [], "rc": rc,
                                     "started": started, "pre": pre, "tree": post, "logsame": logs_meaning(lpre) == logs_meaning(self._log_bytes()),   # the meaning of both logs (and no lock file left)
                                     "cmds": cmds, "json": js, "g": graph_json(sc), **extra})
         finally:
